@@ -331,6 +331,10 @@ func Decrypt(priv *PrivateKey, data []byte, mode int) ([]byte, error) {
 		// too short to contain the format byte, C1 and C3
 		return nil, errors.New("Decrypt: ciphertext too short")
 	}
+	if data[0] != 0x04 {
+		// C1 is an uncompressed point, PC = 04 (GM/T 0003.1 4.2.10); the octet used to be skipped unread
+		return nil, errors.New("Decrypt: C1 is not an uncompressed point")
+	}
 	switch mode {
 	case C1C3C2:
 		data = data[1:]
